@@ -246,6 +246,22 @@ TRANSLATED = [
     (B, 'Convention.make_poly_collection', 'trans_plotsrc', ['Ems.Gen.plotSrcMakePolyCollection'], ['Ems.C19.src_poly_collection_spec']),
     (B, 'Convention.make_quiver', 'trans_plotsrc', ['Ems.Gen.plotSrcMakeQuiver'], ['Ems.C19.src_quiver_spec', 'Ems.C19.src_quiver_default']),
     (P, 'polygons_to_collection', 'trans_plotsrc', ['Ems.Gen.plotSrcPolygonsToCollection'], ['Ems.C19.src_collection_spec']),
+    # ---- C12 / C13: depth operations (harness/trans_depth.py -> Gen/DepthSrc.lean)
+    (D, '_find_ocean_floor_indexes', 'trans_depth', ['Ems.Gen.depthFindFloorIndexes'], ['Ems.C12.find_floor_term_spec']),
+    (D, 'normalize_depth_variables', 'trans_depth', ['Ems.Gen.depthNormalizeBody', 'Ems.Gen.depthNormalizeFrame'],
+     ['Ems.C13.normalize_body_spec', 'Ems.C13.normalize_src_spec']),
+    (D, 'ocean_floor', 'trans_depth', ['Ems.Gen.depthOceanFloorSteps', 'Ems.Gen.depthOceanFloorNormalizeOpts', 'Ems.Gen.depthOceanFloorKeepBounds'],
+     ['Ems.C12.ocean_floor_steps_generated', 'Ems.C12.ocean_floor_src_spec']),
+    # ---- C14: triangulation (harness/trans_trifan.py, trans_tridataset.py)
+    (TRI, '_triangulate_polygons_by_length', 'trans_trifan', ['Ems.Gen.triFanTriangles'], ['Ems.C14.fan_pipeline_spec']),
+    (TRI, 'triangulate_dataset', 'trans_tridataset', ['Ems.Gen.triDatasetLoops', 'Ems.Gen.triDatasetTable'],
+     ['Ems.C14.dataset_loops_spec', 'Ems.C14.dataset_total_spec']),
+    # ---- C05: index and point selection (harness/trans_selectsrc.py -> Gen/SelectSrc.lean)
+    (B, 'DimensionConvention.selector_for_indexes', 'trans_selectsrc', ['Ems.Gen.SelectSrc.selectorSrc'], ['Ems.C05.selector_src_spec']),
+    (B, 'Convention.select_indexes', 'trans_selectsrc', ['Ems.Gen.SelectSrc.selIdxSrc'], ['Ems.C05.select_indexes_src_spec']),
+    (B, 'Convention.drop_geometry', 'trans_selectsrc', ['Ems.Gen.SelectSrc.dropGeomSrc'], ['Ems.C05.drop_geometry_src_spec']),
+    (B, 'Convention.select_index', 'trans_selectsrc', ['Ems.Gen.SelectSrc.selOneSrc'], ['Ems.C05.select_index_src_spec']),
+    (B, 'Convention.select_point', 'trans_selectsrc', ['Ems.Gen.SelectSrc.selPointSrc'], ['Ems.C05.select_point_src_spec']),
     # ---- earlier phases (harness/pipelines.py -> Gen/Pipelines.lean; harness/tables.py -> Gen/Tables.lean)
     (G, 'CFGrid1D._make_polygons', 'pipelines', ['Ems.Gen.cf1dPolygonPoints'], ['Ems.C06.cf1d_pipeline_spec']),
     (G, 'CFGrid2D._make_polygons', 'pipelines', ['Ems.Gen.cf2dPolygonPoints'], ['Ems.C06.cf2d_pipeline_spec']),
